@@ -6,6 +6,7 @@ import (
 	"strings"
 	"sync"
 	"testing"
+	"time"
 
 	"pgregory.net/rapid"
 
@@ -144,4 +145,141 @@ func TestKeysConcurrent(t *testing.T) {
 			return c
 		},
 		Exec: execConcKeys})
+}
+
+// KEYS over a keyspace in which some keys have just reached their deadline and have not been removed yet
+// (the timer of a deadline attached late in a second fires late in the next one): matching terminates
+// and lists exactly the matching keys that have no deadline; whether a key whose deadline second has
+// just begun is still listed is left open (whole-second deadlines).
+type VolKeysCase struct {
+	Persistent []kit.B `json:"persistent"`
+	Volatile   []kit.B `json:"volatile"`
+	Patterns   []kit.B `json:"patterns"`
+}
+
+func execVolKeys(c VolKeysCase) kit.Outcome {
+	db := inproc.New(0, 0)
+	o := kit.Outcome{NonTrivial: len(c.Volatile) > 0, Labels: []string{"KEYS-right-after-deadlines"}}
+	vol := map[string]bool{}
+	for _, k := range c.Persistent {
+		db.Do([][]byte{[]byte("SET"), []byte("p:" + string(k)), []byte("1")})
+	}
+	// attach the deadlines late in a second, probe early in the next
+	now := time.Now()
+	arm := now.Truncate(time.Second).Add(880 * time.Millisecond)
+	if arm.Before(now) {
+		arm = arm.Add(time.Second)
+	}
+	time.Sleep(time.Until(arm))
+	for i, k := range c.Volatile {
+		name := "v:" + string(k)
+		vol[name] = true
+		switch i % 3 {
+		case 0:
+			db.Do([][]byte{[]byte("SET"), []byte(name), []byte("1"), []byte("EX"), []byte("1")})
+		case 1:
+			db.Do([][]byte{[]byte("RPUSH"), []byte(name), []byte("x")})
+			db.Do([][]byte{[]byte("EXPIRE"), []byte(name), []byte("1")})
+		default:
+			db.Do([][]byte{[]byte("SADD"), []byte(name), []byte("x")})
+			db.Do([][]byte{[]byte("EXPIRE"), []byte(name), []byte("1")})
+		}
+	}
+	time.Sleep(time.Until(arm.Truncate(time.Second).Add(time.Second + 40*time.Millisecond)))
+	for _, p := range c.Patterns {
+		_, cls := globref.Parse(string(p))
+		if cls == globref.Unspecified {
+			continue
+		}
+		type res struct{ r inproc.Result }
+		done := make(chan res, 1)
+		go func() { done <- res{db.Do([][]byte{[]byte("KEYS"), []byte(p)})} }()
+		var r inproc.Result
+		select {
+		case x := <-done:
+			r = x.r
+		case <-time.After(4 * time.Second):
+			o.Fail = fmt.Sprintf("KEYS %q did not return within 4 s on a keyspace of %d keys, %d of which had just reached their deadline", string(p), len(c.Persistent)+len(c.Volatile), len(c.Volatile))
+			return o
+		}
+		if r.Panic != "" {
+			o.Fail = fmt.Sprintf("KEYS %q panicked: %.300s", string(p), r.Panic)
+			return o
+		}
+		if r.DecErr != nil || r.Val.Kind != '*' {
+			o.Fail = fmt.Sprintf("KEYS %q: reply is not an array: %.100q", string(p), r.Raw)
+			return o
+		}
+		var got, want []string
+		for _, e := range r.Val.Arr {
+			if !vol[string(e.Str)] {
+				got = append(got, string(e.Str))
+			}
+		}
+		for _, k := range c.Persistent {
+			name := "p:" + string(k)
+			if d, w := globref.Expect(string(p), name); d && w {
+				want = append(want, name)
+			} else if !d {
+				// undefined for this key: drop it from both sides
+				for i := 0; i < len(got); i++ {
+					if got[i] == name {
+						got = append(got[:i], got[i+1:]...)
+						i--
+					}
+				}
+			}
+		}
+		sort.Strings(got)
+		sort.Strings(want)
+		want = dedupe(want)
+		if strings.Join(got, "\x00") != strings.Join(want, "\x00") {
+			o.Fail = fmt.Sprintf("KEYS %q right after %d other keys reached their deadline returned %q of the keys without a deadline, the grammar says %q", string(p), len(c.Volatile), got, want)
+			return o
+		}
+	}
+	// the keyspace still answers
+	done := make(chan struct{}, 1)
+	go func() {
+		db.Do([][]byte{[]byte("EXISTS"), []byte("p:x")})
+		db.Do([][]byte{[]byte("SET"), []byte("v:again"), []byte("1")})
+		done <- struct{}{}
+	}()
+	select {
+	case <-done:
+	case <-time.After(3 * time.Second):
+		o.Fail = "after KEYS ran over keys that had just reached their deadline, EXISTS / SET do not return: a lock was left behind"
+	}
+	return o
+}
+
+func dedupe(a []string) []string {
+	var out []string
+	for i, s := range a {
+		if i == 0 || s != a[i-1] {
+			out = append(out, s)
+		}
+	}
+	return out
+}
+
+func TestKeysVolatile(t *testing.T) {
+	kit.Check(t, kit.Spec[VolKeysCase]{Sub: "volkeys", Quick: 2, Thorough: 40, NoShrink: true,
+		Gen: func(t *rapid.T) VolKeysCase {
+			var c VolKeysCase
+			seen := map[string]bool{}
+			for i, n := 0, rapid.IntRange(2, 10).Draw(t, "np"); i < n; i++ {
+				k := genSubject(t) + fmt.Sprint(i)
+				if !seen[k] {
+					seen[k] = true
+					c.Persistent = append(c.Persistent, kit.B(k))
+				}
+			}
+			for i, n := 0, rapid.IntRange(1, 10).Draw(t, "nv"); i < n; i++ {
+				c.Volatile = append(c.Volatile, kit.B(genSubject(t)+fmt.Sprint(i)))
+			}
+			c.Patterns = []kit.B{"*", "v:*", "p:*", kit.B(genPattern(t)), kit.B("?:" + genPattern(t))}
+			return c
+		},
+		Exec: execVolKeys})
 }
